@@ -169,14 +169,38 @@ def run_params(case):
 
 
 # ---------------------------------------------------------------- (C) repeated names / subcomponents
+FALSY_TEXT = {"c1": "", "c2": "c2", "c3": ""}  # mode "falsy-values": the first / last repeated value is falsy
+
+
 def run_repeat(case):
     _, mode, perm = case
     fails = []
     items = ("c1", "c2", "c3", "o1", "o2")
     order = [items[i] for i in perm]
     c = Event()
+    if mode == "falsy-ints":
+        # repeated integer property whose values include 0 (falsy): x-seq via typed values
+        seq = {"c1": 0, "c2": 2, "c3": 0}
+        for it in order:
+            if it.startswith("c"):
+                c.add("x-seq", vInt(seq[it]))
+            else:
+                c.add({"o1": "summary", "o2": "x-other"}[it], it)
+        want = [str(seq[it]) for it in order if it.startswith("c")]
+        for srt in (True, False):
+            text = c.to_ical(sorted=srt).decode().replace("\r\n ", "")
+            got = [ln.split(":", 1)[1] for ln in text.split("\r\n") if ln.startswith("X-SEQ:")]
+            if got != want:
+                fails.append(fail(f"repeated-{mode}-lose-insertion-order:sorted={srt}", case, want, got))
+        return {"state": ("repeat", mode, tuple(want)), "trans": 2, "nontrivial": True, "outcome": "repeat-ok" if not fails else "FAIL",
+                "fails": fails}
     for it in order:
-        if mode == "values":
+        if mode == "falsy-values":
+            if it.startswith("c"):
+                c.add("comment", FALSY_TEXT[it])
+            else:
+                c.add({"o1": "summary", "o2": "x-other"}[it], it)
+        elif mode == "values":
             if it.startswith("c"):
                 c.add("comment", it)
             else:
@@ -188,11 +212,11 @@ def run_repeat(case):
                 c.add_component(sub)
             else:
                 c.add({"o1": "summary", "o2": "x-other"}[it], it)
-    want = [it for it in order if it.startswith("c")]
+    want = [(FALSY_TEXT[it] if mode == "falsy-values" else it) for it in order if it.startswith("c")]
     for srt in (True, False):
         data = c.to_ical(sorted=srt)
         text = data.decode().replace("\r\n ", "")
-        key = "COMMENT:" if mode == "values" else "DESCRIPTION:"
+        key = "COMMENT:" if mode in ("values", "falsy-values") else "DESCRIPTION:"
         got = [ln.split(":", 1)[1] for ln in text.split("\r\n") if ln.startswith(key)]
         if got != want:
             fails.append(fail(f"repeated-{mode}-lose-insertion-order:sorted={srt}", case, want, got))
@@ -524,7 +548,7 @@ def run(ctx):
     kmax = 5 if ctx.quick else 6
     seeds = range(8) if ctx.quick else range(64)
     ctx.rule = (f"E-hist: (A) all permutations of all subsets (<= {kmax} of 7) of distinct property names on 5 component kinds; "
-                "(A') all 144 insertion orders of a 4-level nested tree (calendar > event > alarm > unknown component) serialised with sorting on and off; (B) all permutations of all subsets (<=4) of 7 parameters; (C) all 120 interleavings of 3 repeated values / 3 "
+                "(A') all 144 insertion orders of a 4-level nested tree (calendar > event > alarm > unknown component) serialised with sorting on and off; (B) all permutations of all subsets (<=4) of 7 parameters; (C) all 120 interleavings of 3 repeated values (also with falsy first/last values: empty text, integer 0) / 3 "
                 "subcomponents with 2 other properties; (D) purity on a 28-value-class menu x params x nesting x sorted flag; "
                 f"(E) BEGIN/END balance of every output; (F) {len(seeds)} PYTHONHASHSEED values, one digest over ~250 trees each. "
                 "non-trivial = at least two names/parameters or any repeated/purity case.")
@@ -540,7 +564,7 @@ def run(ctx):
         for k in range(0, 5):
             for subset in itertools.combinations(range(len(PARAM_POOL)), k):
                 yield ("params", subset)
-        for mode in ("values", "subcomponents"):
+        for mode in ("values", "subcomponents", "falsy-values", "falsy-ints"):
             for perm in itertools.permutations(range(5)):
                 yield ("repeat", mode, perm)
         for pe in itertools.permutations(range(len(NEST_EVENT))):
